@@ -70,6 +70,15 @@ static Json gen_c11(uint64_t seed, long i, std::vector<Format*> const& fmts)
     p.set("bufsz", r.pick({-1, -1, 0, 1, 7, 64, 512, 4096}));
     p.set("showmany", r.pick({0, 0, 1, -1}));
     if (f->name == "png" && r.chance(1, 2)) p.set("meta", 1);
+    // image_read_settings(top_left, dim): a region that lies inside the image the *valid* file declares; what the
+    // corrupted file declares may be smaller, which the reader has to notice
+    if (e != "info" && e != "scanline" && r.chance(1, 4))
+    {
+        int x = (int)r.below((unsigned)w), y = (int)r.below((unsigned)h);
+        Json sb = Json::array();
+        sb.push(x); sb.push(y); sb.push((int)r.range(1, w - x)); sb.push((int)r.range(1, h - y));
+        p.set("sub", sb);
+    }
     // faults
     Bytes base;
     f->make(v.name, w, h, (uint64_t)p.num("cseed"), base);
@@ -348,6 +357,11 @@ static RunResult run_c11(Json const& plan)
     s.entry = plan.str("entry", "read_image"); s.type = plan.str("type");
     s.dev = dev_from_json(plan);
     s.meta = plan.num("meta") != 0;
+    if (plan.has("sub") && plan.at("sub").a.size() == 4)
+    {
+        auto const& sb = plan.at("sub").a;
+        s.sub_x = (long)sb[0].i; s.sub_y = (long)sb[1].i; s.sub_w = (long)sb[2].i; s.sub_h = (long)sb[3].i;
+    }
     device_faults(s.dev, plan.at("ops"));
     long P_cap = (long)(g_new_cap);
     long decl = f->declared_pixels ? f->declared_pixels(bytes) : -1;
